@@ -49,7 +49,11 @@ Record cfg := mkCfg {
   g_mixed : bool;                            (* the value arrays of this history have both signs *)
   g_lowdim : bool;                           (* fewer than three axes: MGHImage pads by ArrayProxy.reshape *)
   g_reshape_ok : bool;                       (* ArrayProxy.reshape keeps slope and intercept *)
-  g_repoint : bool }.                        (* fix 29b7b6ce: after a write onto the file the image's own proxy
+  g_repoint : bool;
+  (* the image class a file gets when an image of class x is saved under a name of family n (the .img/.hdr
+     names hold a NIfTI pair or an SPM Analyze image: loadsave.save keeps the class when the name fits it, else
+     converts - Nifti1Image -> Nifti1Pair, ... ); measured into C09/Tables.v *)
+  g_tclass : fmt -> fmt -> fmt }.                        (* fix 29b7b6ce: after a write onto the file the image's own proxy
                                                 reads, _dataobj becomes the in-memory data and the caches go *)
 
 Definition pinfo_of (g : cfg) (p : nat) : pinfo := nth p (g_paths g) (mkP Nii false).
@@ -72,7 +76,8 @@ Fixpoint scale_lookup (t : list (fmt * dtype * nat * nat)) (f : fmt) (d : dtype)
 (* what a file holds *)
 Record content := mkK { k_val : option nat;   (* Some v: decodes to source value v; None: garbage *)
                         k_dt : dtype; k_aff : nat;
-                        k_scl : nat }.        (* scale identity of the stored slope / intercept *)
+                        k_scl : nat;          (* scale identity of the stored slope / intercept *)
+                        k_cls : fmt }.        (* the image class the file loads as (by content, for .img names) *)
 
 Definition needed (g : cfg) (p : nat) (d : dtype) : Z := g_off g (pi_fmt (pinfo_of g p)) + g_n g * isz d.
 Definition flen (g : cfg) (p : nat) (c : content) : Z :=
@@ -151,10 +156,13 @@ Inductive op :=
 | SetInt (s : nat)            (* set_data_dtype(int16) *)
 | Save (s p : nat)
 | SaveU8 (s p : nat)          (* set_data_dtype(uint8); save; set_data_dtype(back) *)
+| ToFilename (s p : nat)      (* img.to_filename(name): no class conversion, the name must belong to the class *)
+| Clone (s s2 : nat)          (* slot s2 := type(img).from_image(img): a second image object on the SAME dataobj *)
+| EditMap (s : nat)           (* a = np.asanyarray(img.dataobj) of a proxy image; a[0,..] += 1 (copy-on-write) *)
 | SaveFull (s : nat)          (* save onto a name of the image's own class that is a link to /dev/full *)
 | ToBytes (s : nat).
 
-Inductive err := ENoImage | ENoFile | EShortRead | ENoConversion | ENotSerializable | ENoSpace | EWriter.
+Inductive err := ENoImage | ENoFile | EShortRead | ENoConversion | ENotSerializable | ENoSpace | EWriter | EClass.
 Inductive out :=
 | ODone
 | OVal (v : option nat)                                  (* get_fdata: which value (None = garbage) *)
@@ -181,7 +189,7 @@ Definition do_load (g : cfg) (w : world) (s p : nat) (mm : bool) : world * out :
   | None => (w, ORefused ENoFile)
   | Some c =>
     if (s <? length (w_imgs w))%nat then
-      (set_img w s (mkI (SProxy p (k_dt c) (k_scl c) mm) (pi_fmt (pinfo_of g p)) (k_dt c) (k_aff c) CNone), ODone)
+      (set_img w s (mkI (SProxy p (k_dt c) (k_scl c) mm) (k_cls c) (k_dt c) (k_aff c) CNone), ODone)
     else (w, ORefused ENoImage)
   end.
 
@@ -213,6 +221,9 @@ Definition do_fdata (g : cfg) (w : world) (s : nat) : world * out :=
 Definition out_dtype (g : cfg) (im : image) (tf : fmt) : option dtype :=
   if fmt_eqb (i_fmt im) tf then Some (i_hdt im) else conv_lookup (g_conv g) (i_fmt im) tf (i_hdt im).
 
+(* the class the target gets: the image's own when the name fits it, else the conversion by extension *)
+Definition tfmt (g : cfg) (im : image) (t : nat) : fmt := g_tclass g (i_fmt im) (pi_fmt (pinfo_of g t)).
+
 (* the class conversion to MGH of an image with fewer than three axes wraps the proxy by
    ArrayProxy.reshape: the reshaped proxy must carry the scale factors along *)
 Definition reshaped (g : cfg) (im : image) (tf : fmt) : image :=
@@ -232,12 +243,12 @@ Definition writer_refuses (g : cfg) (tf : fmt) (od : dtype) : bool :=
    with no scaling; integer storage elsewhere re-scales: the factors are a function of data and dtype *)
 Definition written (g : cfg) (tf : fmt) (od : dtype) (v : option nat) (a : nat) : content :=
   if is_int od then
-    if fmt_eqb tf Mgh then mkK (if g_mixed g && dtype_eqb od U1 then None else v) od a O
+    if fmt_eqb tf Mgh then mkK (if g_mixed g && dtype_eqb od U1 then None else v) od a O tf
     else match v with
-         | Some vv => mkK v od a (scale_lookup (g_scale g) tf od vv)
-         | None => mkK None od a O
+         | Some vv => mkK v od a (scale_lookup (g_scale g) tf od vv) tf
+         | None => mkK None od a O tf
          end
-  else mkK v od a O.
+  else mkK v od a O tf.
 
 (* proxy_reads_target (os.path.samefile on the proxy's file_like), evaluated by the to_file_map of the image
    object itself - a class conversion saves a converted copy, which is then the one re-pointed *)
@@ -254,7 +265,7 @@ Definition do_save (g : cfg) (w : world) (s t : nat) (hd : option dtype) : world
   | None => (w, ORefused ENoImage)
   | Some im0 =>
     if negb (fid g t <? length (w_fs w))%nat then (w, ORefused ENoFile) else
-    let tf := pi_fmt (pinfo_of g t) in
+    let tf := tfmt g im0 t in
     let im := match hd with Some d => mkI (i_src im0) (i_fmt im0) d (i_aff im0) (i_cache im0) | None => im0 end in
     match out_dtype g im tf with
     | None => (w, ORefused ENoConversion)
@@ -273,7 +284,7 @@ Definition do_save (g : cfg) (w : world) (s t : nat) (hd : option dtype) : world
              then the data are read through the map of that very file *)
           if roundup (g_off g tf) (g_page g) <? needed g t (match i_src im with SProxy _ d _ _ => d | _ => od end)
           then (kill w, OCrash)
-          else (mkW (upd (fid g t) (Some (mkK None od (i_aff im) O)) (w_fs w)) (w_imgs w) (w_dead w),
+          else (mkW (upd (fid g t) (Some (mkK None od (i_aff im) O tf)) (w_fs w)) (w_imgs w) (w_dead w),
                 OSaved t None od (i_aff im) O)
         else
           let c := written g tf od v (i_aff im) in
@@ -326,6 +337,38 @@ Definition step (g : cfg) (w : world) (o : op) : world * out :=
     end
   | Save s t => do_save g w s t None
   | SaveU8 s t => do_save g w s t (Some U1)
+  | ToFilename s t =>
+    match img_at w s with
+    | None => (w, ORefused ENoImage)
+    | Some im => if fmt_eqb (i_fmt im) (tfmt g im t) then do_save g w s t None
+                 else (w, ORefused EClass)          (* ImageFileError before anything is touched *)
+    end
+  | Clone s s2 =>
+    match img_at w s with
+    | None => (w, ORefused ENoImage)
+    | Some im =>
+      if (s2 <? length (w_imgs w))%nat then
+        (* the proxy object is shared; a proxy is immutable, so sharing it is copying its spec; the
+           new image has its own (empty) caches and its own header copy *)
+        (set_img w s2 (mkI (i_src im) (i_fmt im) (i_hdt im) (i_aff im) CNone), ODone)
+      else (w, ORefused ENoImage)
+    end
+  | EditMap s =>
+    match img_at w s with
+    | None => (w, ORefused ENoImage)
+    | Some im =>
+      match i_src im with
+      | SArray _ => (w, ODone)                      (* not applied to array images *)
+      | SProxy _ _ _ _ =>
+        (* a fresh array (a private copy-on-write map or an in-memory read): the edit reaches neither
+           the file nor the image *)
+        match denote g (w_fs w) im with
+        | RVal _ => (w, ODone)
+        | RRefused => (w, ORefused EShortRead)
+        | RCrash => (kill w, OCrash)
+        end
+      end
+    end
   | SaveFull s =>
     (* the data are read, the target opened, the write fails with ENOSPC: OSError; no file of the
        world and no image changes (the consumable header values are restored in `finally`) *)
